@@ -7,7 +7,7 @@ from common import seed
 from common import prove
 
 MODULE = 'Proofs.Props.C04'
-THEOREMS = ['Facto.ring_iterates', 'Facto.ring_latency', 'Facto.self_feedback', 'Facto.emitsOK_runF', 'Facto.runF_const', 'Facto.ring_stage_law', 'Facto.ring_pipeline', 'Facto.ring_core', 'Facto.ring_end_to_end', 'Facto.stepIs_sound', 'Facto.always_cell_end_to_end']
+THEOREMS = ['Facto.ring_iterates', 'Facto.ring_latency', 'Facto.self_feedback', 'Facto.emitsOK_runF', 'Facto.runF_const', 'Facto.ring_stage_law', 'Facto.ring_pipeline', 'Facto.ring_core', 'Facto.ring_end_to_end', 'Facto.stepIs_sound', 'Facto.always_cell_end_to_end', 'Facto.MemExample.accepts', 'Facto.MemExample.counter_counts']
 
 
 def run(res, tier):
